@@ -188,6 +188,26 @@ def o_persist(ctx, entries, as_bin, into):
     ctx.reached()
 
 
+def o_persist_big(ctx, count, as_bin):
+    """tables of up to 255 CONCRETE entries through the REAL json module / binary format (enumeration, reported as such:
+    the symbolic obligation above uses a contract stub for json)"""
+    fs = C.MemFS(symbolic=False)
+    clock = fresh_env(ctx, fs=fs)
+    radio, node, _ = build_node(ctx, clock, "master", 0)
+    addrs = [a for a in range(1, 0o10000) if NS.valid(a) and a != 0o4444][:count]
+    table = {255 - i: a for i, a in enumerate(addrs)}
+    node.dhcp_dict = dict(table)
+    node.save_dhcp("big", as_bin)
+    radio2, other, _ = build_node(ctx, clock, "master", 0, name="second")
+    other.dhcp_dict = {}
+    other.load_dhcp("big", as_bin)
+    ctx.check(dict(other.dhcp_dict) == table, "save_dhcp()/load_dhcp() reproduce a table of %d leases exactly" % count)
+    node.load_dhcp("big", as_bin)
+    ctx.check(dict(node.dhcp_dict) == table, "loading into the same master changes nothing")
+    C.install_env(clock=clock, fs=None)
+    ctx.reached()
+
+
 def jobs(tier):
     out = []
     ks = (0, 1, 2, 3, 4) if tier == "quick" else (0, 1, 2, 3, 4, 5)
@@ -195,6 +215,9 @@ def jobs(tier):
         for via in range(4):
             out.append(Job("request-step", o_request, dict(entries=k, via_lvl=via), cost=4 ** k, shards=(1 if k < 3 else 4 if k == 3 else 12)))
         out.append(Job("release-step", o_release, dict(entries=k), cost=2 ** k))
+    for count in ((0, 1, 128, 255) if tier == "quick" else (0, 1, 2, 64, 127, 128, 200, 254, 255)):
+        for as_bin in (False, True):
+            out.append(Job("save-load-concrete-real-json", o_persist_big, dict(count=count, as_bin=as_bin), cost=2))
     for direct in (True, False):
         out.append(Job("full-parent-then-lookup", o_full_parent_then_lookup, dict(direct=direct), cost=20, shards=4))
     for k in ((0, 1, 3) if tier == "quick" else (0, 1, 2, 3, 4)):
@@ -209,7 +232,7 @@ META = {
                         "symbolic node of level 1, 2, 3 (all addresses); release from a symbolic valid origin; the structured full-parent pre-state (5 direct / 4 relayed slots leased to "
                         "symbolic IDs) followed by a look-up; save/load of "
                         "tables with 0/1/3 symbolic leases in both formats into a fresh master, the same master and a master "
-                        "holding a stale lease",
+                        "holding a stale lease; concrete tables of 0/1/128/255 leases through the real json module and the binary format",
                "thorough": "tables of up to 5 symbolic leases"},
     "outside": ["tables with more than 5 entries in the inductive step (the scan is uniform in the table length: an argument, not a "
                 "solver result)", "JSON text round trip: the json module is replaced by a contract stub (json.load(json.dumps(d)) "
